@@ -17,7 +17,12 @@ RULE = ("one fixed case covering the WHOLE ExchangeId enum (42 variants: exall +
         "find_instrument_index / find_instrument with present and absent keys, out-of-range indices, names in other casings; 4 % lookups before build, 3 % a "
         "49-character name). thorough additionally enumerates every string of length <= 3 over {a, B, _} (40 strings: the three constructors, and eqci + cmp "
         "for every ordered pair) and every sequence of 1-3 definitions from a pool of four that collide in every way, each followed by a full lookup sweep "
-        "(3 exchanges x 5 asset names x 4 instrument names, every index up to one past the end). A case is distinct by the SHA-1 of its op lines and "
+        "(3 exchanges x 5 asset names x 4 instrument names, every index up to one past the end). Input-domain family `b`, separately seeded and appended (N/80 cases): LARGE collections of "
+        "50-130 definitions (every fifth one, the third first, 260-320: positions past u8) over 3-8 exchanges of the whole enum (30 % with the first and the last variant), 8-24 assets of "
+        "which a quarter carry one of three shared exchange names (two internal names of one exchange under one exchange name), instrument names from a pool a third the size of the "
+        "collection (many definitions under one (exchange, name)), every decimal from {0, 1, 2, 5, 9, 10, 100, 1e12-1, 1e12} (numeric order is not the order of the digit strings), "
+        "15 % verbatim repeats; then 16 random lookups and sweeps at the far end of each table: fx at size-1 / size / size+1 / 255 / 256 / 65535 / 65536, fi in the upper half of the "
+        "table up to one past the end, fa over the whole possible range, fa / fi at 255, 256, 257, 2^16-1, 2^16, 2^32-1, 2^32. A case is distinct by the SHA-1 of its op lines and "
         "non-trivial when two of its ops produce different observations. Oracle (spec mode, computed from the ops alone by functions that do not call the builder model): "
         "names = the documented letter-table reading; map_asset_key_with_lookup = Ok with every asset replaced, or the FIRST missing reference in the order base, quote, "
         "settlement, quantity unit; `build` = the three counts, exchanges() = the variants that occur in declaration order, assets() = the distinct (exchange, asset) pairs "
